@@ -20,6 +20,7 @@ from ..extern import Net
 from ..interp import freeze, Inst
 from ..lossenv import LossEnv, SingleLoss, SystemLoss
 from ..report import Violation, Inconclusive
+from ..specs import canon as canon_
 from .C03 import scalar_of
 
 EQ_KEYS = ('nu', 'th')
@@ -123,6 +124,18 @@ def run(chk):
                 n = check_alignment(terms, pk)
                 return f"{n} parameter occurrences aligned"
             chk.run("C12.R1", SSITE[eq_type], cfg, go_sys, construct=f"alignment[system {eq_type}]")
+        # an EMPTY parameter-batch dictionary (present, no key batched) is the empty subset: same formulas as without a batch
+        def go_empty(eq_type=eq_type, names=names):
+            S = SingleLoss(E, eq_type, 'PINN', d=2, m_u=1, terms=names, eq_keys=EQ_KEYS)
+            _, t0 = S.evaluate(param_keys=())
+            _, t1 = S.evaluate(param_keys='empty')
+            for k_ in t0:
+                if canon_(scalar_of(t0[k_], k_)) != canon_(scalar_of(t1[k_], k_)):
+                    raise Violation(k_, f"with an empty parameter-batch dictionary: {scalar_of(t1[k_], k_)}", f"as without a batch: {scalar_of(t0[k_], k_)}")
+            return "an empty parameter batch changes nothing"
+        chk.run("C12.R1", SITE[eq_type] + " (empty parameter batch)", {"loss": eq_type, "batched": [], "param_batch_dict": "{}"}, go_empty,
+                construct=f"empty batch[{eq_type}]")
+
         # stationary normalisation with a parameter batch (as many normalisation samples as rows): sample i goes with row i
         if eq_type == 'statio_PDE':
             for pk in subsets:
@@ -381,7 +394,16 @@ def run_hyper_input(chk, E):
                 if not same(o, outs[0][1]):
                     raise Violation("HYPERPINN.eval_nn", f"with eq_params keys in order {list(order)}: {str(o)[:220]}",
                                     f"the value obtained with keys in order {list(outs[0][0])}: {str(outs[0][1])[:220]}")
-            return "independent of the dictionary's key order"
+            # the designated parameters reach the hyper-network as they are: no stop_gradient on the way (the gradient with
+            # respect to a hyper-parameter flows through the generated weights)
+            from ..alg import Pm as _Pm
+            pr = Params.make(nn_params=Sym('theta_h'), eq_params={'nu': _Pm('nu', (1,)), 'D': _Pm('D', (2,)), 'other': _Pm('other', (1,))})
+            o = to_at(hp.eval_nn(x, pr))
+            txt = " ".join(str(e_) for e_ in o.entries())
+            if 'sg:' in txt:
+                raise Violation("HYPERPINN.eval_nn", "the hyper-network input is behind stop_gradient: " + txt[:200],
+                                "the designated equation parameters themselves")
+            return "independent of the dictionary's key order; no stop_gradient on the hyper-network input"
         chk.run("C12.R8", f"{HYPER_MOD}:HYPERPINN.eval_nn", {"hyperparams": list(declared)}, go, construct="hyper-network input order")
 
 
